@@ -58,6 +58,19 @@ def succ(k):
     return k + b"\x00"
 
 
+# Bounds with OTHER bytes at or below the key/revision separator '$' (0x24) than one trailing \x00 (/repo 23c8b93:
+# encodeRangeBound cuts a bound at its first such byte): tails appended to a key, and whole bounds that START with a low
+# byte (the "empty prefix" case: just after every version of the empty key, i.e. below every stored key).
+LOW_TAILS = [b"\x01", b"#", b"$", b"\x00\x00", b"\x00b", b"$x", b"\x01\xff", b"\x02", b"\x00\x00\x00"]
+LOW_HEADS = [b"\x01", b"$", b"\x00\x00", b"#r", b"\x00/r/a", b"\x24\xff"]
+
+
+def low_bounds(k, r=None, n=None):
+    """bounds k+tail with a low byte right behind k (in raw byte order: after k, before every longer key starting with k)"""
+    tails = LOW_TAILS if r is None or n is None else r.sample(LOW_TAILS, n)
+    return [k + t for t in tails]
+
+
 def page_starts(live_sorted, lo, hi, n):
     """the start keys of a client paging through [lo, hi) with page size n: lo, then lastKey+\x00 of every page that
     reports more (computed on RAW keys from the predicted snapshot)"""
@@ -146,7 +159,20 @@ def succ_bounds(r, keys, a, b):
         b = succ(r.choice(keys))
     elif x < 0.29:
         a, b = succ(r.choice(keys)), succ(r.choice(keys))
-    if x < 0.29 and a > b and r.random() < 0.85:
+    elif x < 0.33:
+        # any other low byte behind a key (/repo 23c8b93), as start, as end, as both (possibly encoded alike)
+        k = r.choice(keys)
+        return k, k + r.choice(LOW_TAILS)
+    elif x < 0.38:
+        a = r.choice(keys) + r.choice(LOW_TAILS)
+    elif x < 0.43:
+        b = r.choice(keys) + r.choice(LOW_TAILS)
+    elif x < 0.46:
+        k = r.choice(keys)
+        a, b = sorted([k + r.choice(LOW_TAILS), r.choice([k, r.choice(keys)]) + r.choice(LOW_TAILS)])
+    elif x < 0.48:
+        a = r.choice(LOW_HEADS)
+    if x < 0.48 and a > b and r.random() < 0.85:
         a, b = b, a
     return a, b
 
